@@ -33,6 +33,9 @@ def fanout(binary, cmds, tag):
     out = []
     cur = None
     for line in p.stdout.decode("utf-8", errors="replace").split("\n"):
+        if line == "TIMEOUT":
+            raise C.HarnessError("a runner did not come back within 120 s (normal: milliseconds). Termination is not judged by this check; "
+                                 "command list %s" % tag)
         if line.startswith("BEGIN "):
             cur = []
         elif line.startswith("END "):
